@@ -14,7 +14,7 @@ sys.path.insert(0, str(common.VERIF / "tools"))
 import gen_codata  # noqa: E402
 
 PROPERTY = "C02"
-LEAN_TARGETS = ["QcelVerif.Props.C02", "QcelVerif.Lemmas.Dec", "QcelVerif.Driver.C02"]
+LEAN_TARGETS = ["QcelVerif.Props.C02", "QcelVerif.Lemmas.Dec", "QcelVerif.Lemmas.DecBounds", "QcelVerif.Props.C02Dec", "QcelVerif.Driver.C02"]
 DRIVER = "QcelVerif/Driver/C02.lean"
 _C = "QcelVerif.Constants."
 THEOREMS = [
@@ -33,20 +33,47 @@ THEOREMS = [
     (_C + "attrs_and_floats_2018", "same for 2018"),
     ("QcelVerif.Dec.roundHalfEven_err", "GENERAL: ROUND_HALF_EVEN of any coefficient to any number of dropped digits is within half a unit of the last kept place"),
     ("QcelVerif.Dec.fix_of_fits", "GENERAL: rounding to context precision leaves any value with <= 28 digits unchanged (power-of-ten scalings in the alias table are exact)"),
+    # wave-1 extension: general error bounds of the decimal model (Props/C02Dec.lean, Lemmas/DecBounds.lean)
+    ("QcelVerif.Dec.ndigits_eq", "GENERAL: the model's digit count is 1 + floor(log10 n) for every natural number (no fuel limit)"),
+    ("QcelVerif.Dec.fix_rel_err", "GENERAL: Decimal._fix (round to 28 significant digits, half-even, carry renormalised) changes any finite decimal by at most 5e-28 relative"),
+    ("QcelVerif.Dec.fix_exact", "GENERAL: _fix is exact on every value that can be written with <= 28 significant digits (trailing zeros of long coefficients are dropped without error)"),
+    ("QcelVerif.Dec.mul_rel_err", "GENERAL, all operands: |val(a*b in the model) - val a * val b| <= 5e-28 * |val a * val b|"),
+    ("QcelVerif.Dec.add_rel_err", "GENERAL, all operands (zero operands, cancellation, any exponent gap): |val(a+b) - (val a + val b)| <= 5e-28 * |val a + val b|"),
+    ("QcelVerif.Dec.sub_rel_err", "GENERAL, all operands: same for a-b"),
+    ("QcelVerif.Dec.div_rel_err", "GENERAL, every divisor with non-zero coefficient: the model's quotient (29/30-digit truncated quotient + sticky digit + one rounding, as CPython computes it) exists and is within 5e-28 relative of val a / val b"),
+    ("QcelVerif.Dec.div_by_zero", "GENERAL: a zero divisor is refused (none = DivisionByZero/InvalidOperation); the only operands excluded from div_rel_err"),
+    ("QcelVerif.Dec.mul_exact", "GENERAL: a product that has <= 28 significant digits is returned exactly"),
+    ("QcelVerif.Dec.mul_exact_of_digits", "GENERAL: if the product of the coefficients has <= 28 digits the result is the schoolbook triple (sign xor, coefficient product, exponent sum)"),
+    ("QcelVerif.Dec.add_exact", "GENERAL: a sum that has <= 28 significant digits is returned exactly"),
+    ("QcelVerif.Dec.sub_exact", "GENERAL: a difference that has <= 28 significant digits is returned exactly"),
+    ("QcelVerif.Dec.div_exact", "GENERAL: a quotient that has <= 28 significant digits is returned exactly (an inexact 29/30-digit quotient never has <= 28 significant digits)"),
+    ("QcelVerif.Dec.results_fit", "GENERAL: every result of mul/add/sub/div has a coefficient below 10^28"),
+    (_C + "evalDec_approx", "GENERAL, any constants table / alias table / expression: decimal evaluation = exact rational evaluation times rho with (1-u)^n <= rho <= (1-u)^-n, u = 5e-28, n = number of mul/div nodes evaluated; in particular the exact evaluation succeeds whenever the decimal one does"),
+    (_C + "evalDec_rel_err", "GENERAL: hence |decimal value - exact rational value| <= n*u/(1-n*u) * |exact| for every alias formula over arbitrary constant values"),
+    (_C + "evalDec_exact_of_no_rounding", "GENERAL: a definition without mul/div nodes (plain constant, literal, alias of those) is evaluated exactly"),
+    (_C + "aliasSpec_roundings", "the 27 alias definitions and the 3 derived constants each perform at most 3 rounded operations (kernel evaluation of the two definition lists, no constant values involved)"),
+    (_C + "aliasClose_of_aliasOk", "GENERAL in the constants: for any table, an alias stored digit-for-digit as the decimal evaluation of a definition with <= 3 rounded operations is within 2e-27 relative of its exact rational definition"),
+    (_C + "aliases_close_2014", "shipped 2014 instance of the 2e-27 bound for all 27 aliases, derived from the digit-for-digit clause of aliases_follow_spec_2014 through the general theorem (not a per-row evaluation)"),
+    (_C + "aliases_close_2018", "same for 2018"),
+    (_C + "derived_close_2018", "same for the 3 derived legacy constants of 2018"),
 ]
 TRANSLATORS = [gen_codata.main]
 TRUSTED_BASE = [
     "Lean 4.33 kernel (decide +kernel evaluation over the generated tables and the model's context construction; no native_decide); axioms audited per theorem",
     "tools/gen_codata.py: re-encodes nist_201{4,8}_codata.py (ast.literal_eval), codata-201{4,8}.txt (column slices only) and the SRD-121 JSON as packed naturals; cross-checked because the Lean driver reads the same generated tables and is compared with the running implementation on every key",
-    "hand-written model Model/Constants.lean of context.py:72-245 and Model/Dec.lean of Python decimal (prec 28, ROUND_HALF_EVEN) + float(Decimal); tied by exhaustive correspondence (every key x 4 casings x 4 access paths x 3 contexts, key order, attribute set) and a random decimal-arithmetic / float-conversion stream against CPython",
+    "hand-written model Model/Constants.lean of context.py:72-245 and Model/Dec.lean of Python decimal (prec 28, ROUND_HALF_EVEN) + float(Decimal); tied by exhaustive correspondence (every key x 4 casings x 4 access paths x 3 contexts, key order, attribute set) and a random + structured decimal-arithmetic / float-conversion stream against CPython (structured classes: 28+ and 2000+ digit coefficients, exact ties at the 29th digit, carries to the next power of ten, exponent gaps around and far beyond the precision, results dropping below a power of ten, signed zeros, sticky-digit and exact quotients; their distribution is printed in the evidence under dec:*)",
+    "that Model/Dec.lean IS CPython's decimal remains differential (the stream above); what is now PROVED about the model for all operands is that each of mul/div/add/sub is correctly rounded (<= 5e-28 relative), exact whenever the exact result has <= 28 significant digits, and that errors compose along the alias formulas as n*u/(1-n*u)",
+    "Mathlib (ordered-field lemmas, Nat.log, Bernoulli's inequality, ring/linarith/nlinarith/field_simp/norm_num) in Lemmas/DecBounds.lean and Props/C02Dec.lean only; Model files stay core-only",
     "the alias specification (Model/Constants.lean aliasSpec) is a hand transcription of the documentation block context.py:247-271",
     "the oracle's own reading of the raw NIST tables and its own alias formulas in exact fractions",
     "CPython decimal / float(str) (checked digit-for-digit / bit-for-bit against the model on every value the run touches)",
 ]
 ASSUMPTIONS = [
     "ASCII names only (str.lower/str.translate on non-ASCII are outside the model)",
-    "default decimal context at import time (prec 28, ROUND_HALF_EVEN); exponent limits Emin/Emax not modelled; float model valid for |decimal exponent| < ~2400",
+    "default decimal context at import time (prec 28, ROUND_HALF_EVEN); exponent limits Emin/Emax not modelled (no overflow / subnormal / clamping: the Dec.*_rel_err theorems are about unbounded exponents), NaN/Infinity operands and signal traps are outside the model; float model valid for |decimal exponent| < ~2400",
+    "float(Decimal) nearest-double is NOT proved for all decimals (Dec.toF64's log2 search is valid below 2^8192): kernel-checked per shipped entry and compared bit for bit with CPython on the stream",
     "pydantic Datum construction/validation is not modelled (only label, units, data, comment, doi are compared)",
+    "construction sequences: single process, single thread; orders of up to 5 constructions per sequence (all earlier sequences' contexts remain part of the process history); a change of an earlier instance that leaves it conforming to the property is recorded in the evidence notes, not reported as a violation",
     "attribute access is modelled for the float attributes set by the constant loop only (pc, doi, name, year, raw_codata, _ureg excluded)",
 ]
 RULE = (
@@ -54,15 +81,32 @@ RULE = (
     "the calorie-joule relationship, all 27 aliases, the 26 legacy names and 3 derived constants (2018), plus every further key the implementation holds, "
     "x {exact, lower, upper, random mixed case} x {get, get(return_tuple), attribute (name mangled by the harness), pc[...]}; "
     "plus pc key order and attribute-name set per context, near-miss / foreign names (KeyError paths), and a seeded stream of random Decimal "
-    "add/sub/mul/div and float(Decimal) cases against CPython. Distinct = (context, mode, name as sent); non-trivial = name is not the "
-    "stored lower-case key spelled exactly, or the entry is computed (alias / legacy / derived), or an arithmetic case."
+    "add/sub/mul/div and float(Decimal) cases against CPython, followed by a structured decimal stream drawn uniformly from the classes "
+    "long (28-90 digit coefficients), tie (exact result ends in 5/50/500.. right after the 28th digit, built as operand*1, n*f/f, c*10^k + half, products), "
+    "carry (28 nines then >= half: the rounded coefficient reaches 10^28), expgap (add/sub, exponent gaps 0..3000 incl. 26-32), cross-down (10^k minus something tiny), "
+    "zero (signed zeros of assorted exponents against zeros and long operands), huge (1999-3100 digit coefficients), div-sticky (inexact quotient whose truncated expansion ends in 0 or 5), "
+    "div-exact (representable quotients, trailing-zero stripping); every D case is profiled from CPython's answer with exact fractions (dec:* keys of the distribution). "
+    "Construction-sequence stream (runs last): fresh PhysicalConstantsContext objects are built inside this one process in varied orders - fixed orders first "
+    "(2014 after 2018, 2018 after 2014, each set twice, 2018/default-arg/2018/2014), then random sequences of 2-5 constructions ('CODATA2014', 'CODATA2018', no argument) "
+    "interleaved with uses of earlier instances, the singleton and the harness' own contexts (get in random case, get(return_tuple), attribute, pc[...], string_representation, "
+    "Quantity, conversion_factor, ureg); after EVERY construction the new instance gets the full oracle sweep (every NIST row of its set, calorie, aliases, renames, derived x "
+    "{get(return_tuple), get, attribute, pc[lower]}) plus key order / attribute set / every Datum against the model, and every instance built earlier (incl. singleton) is "
+    "re-examined: its observable state (pc by value in order, float attributes, what attribute access resolves to) is compared with what it was when built and, if it differs, "
+    "the full oracle is re-run on it. A finding's case carries the whole construction history (prior sequences' constructions + this sequence's steps) and replays it. "
+    "Distinct = (context, mode, name as sent) resp. (prior constructions, sequence prefix); non-trivial = name is not the "
+    "stored lower-case key spelled exactly, or the entry is computed (alias / legacy / derived), or an arithmetic case, or a construction in a sequence."
 )
 LEVEL_TEXT = (
     "proof by kernel evaluation over the complete finite tables (shipped = NIST for both sets; context contents; aliases = spec; renames; floats nearest) "
     "+ general case-insensitivity lemma; the model is tied to context.py by exhaustive correspondence, the alias spec to the code digit-for-digit. "
-    "Partial: the half-unit bound of the rounding step is proved in general (roundHalfEven_err), but the relative error bounds of Dec.mul/div as wholes are not; the 2e-27 bound is kernel-checked on every alias of both sets instead."
+    "The decimal model's error analysis is now proved in general (all operands, no table): each of Dec.mul/div/add/sub is correctly rounded (relative error <= 5e-28; only a zero divisor is excluded, and refused), "
+    "exact whenever the exact result has <= 28 significant digits, every result fits 28 digits, and along any alias formula over ARBITRARY constant values the error is <= n*u/(1-n*u) (n = mul/div nodes, n <= 3 for all 30 shipped definitions), "
+    "so the 2e-27 bound of every alias follows from the digit-for-digit clause by a general theorem (aliases_close_2014/2018, derived_close_2018); the per-row kernel check of the bound is kept as well. "
+    "Instances are checked in construction SEQUENCES too (state leaking between instances - mutable defaults, class attributes, shared dicts - shows as an oracle finding on the instance it corrupts, with the construction order in the replay); the model is a pure function of the tables, so order-independence is a property of the model by construction and of the code by this differential stream only. "
+    "Partial: that the model equals CPython's decimal is differential (random + structured stream incl. ties, carries, 2000+ digit coefficients), exponent limits Emin/Emax are not modelled, "
+    "and float(Decimal) = nearest double is kernel-checked per shipped entry and compared with CPython on a stream, not proved for all decimals."
 )
-TECHNIQUE = "Lean 4 decide +kernel over translator-generated tables + executable Decimal/float model + exhaustive differential correspondence + fractions oracle"
+TECHNIQUE = "Lean 4 decide +kernel over translator-generated tables + general (Mathlib) error analysis of the executable Decimal model + exhaustive differential correspondence + fractions oracle"
 
 MODES = ("get", "tuple", "attr", "item")
 
@@ -257,6 +301,180 @@ def nearest_double_problem(f, d: Decimal):
     return None
 
 
+# ---- structured decimal-arithmetic cases (wave-1 extension) --------------------------------
+# Each class aims at one branch of Model/Dec.lean (`fix`, the sticky digit of `div`, `padTo`, the
+# sign rules of `add`) that uniformly random operands reach rarely or never.
+
+def _digits(rng, n: int) -> str:
+    """a coefficient of exactly n digits (no leading zero)"""
+    return str(rng.randrange(10 ** (n - 1), 10 ** n)) if n > 1 else str(rng.randrange(1, 10))
+
+
+def _sci(rng, coeff: str, exp=None, neg=None) -> str:
+    """spell coeff * 10^exp as decimal text (sign, optional point moved into the digits, exponent)"""
+    if exp is None:
+        exp = rng.randint(-60, 60)
+    if neg is None:
+        neg = rng.random() < 0.45
+    if rng.random() < 0.4 and len(coeff) > 1:
+        p = rng.randrange(1, len(coeff))
+        exp += len(coeff) - p
+        coeff = coeff[:p] + "." + coeff[p:]
+    t = ("-" if neg else "") + coeff
+    if exp != 0 or rng.random() < 0.3:
+        t += rng.choice("eE") + (rng.choice(["", "+"]) if exp >= 0 else "") + str(exp)
+    return t
+
+
+DEC_CLASSES = ("long", "tie", "carry", "expgap", "zero", "huge", "div-sticky", "div-exact", "cross-down")
+
+
+def structured_dec_case(rng):
+    """-> (op, text a, text b, class)"""
+    cls = rng.choice(DEC_CLASSES)
+    if cls == "long":  # 28+ digit coefficients on both sides, any operation
+        a = _sci(rng, _digits(rng, rng.choice([28, 29, 30, 31, 35, 40, 56, 57, 60, 90])))
+        b = _sci(rng, _digits(rng, rng.choice([1, 5, 27, 28, 29, 30, 40, 57])))
+        return rng.choice(["add", "sub", "mul", "div"]), a, b, cls
+    if cls == "tie":  # the exact result ends in 5, 50, 500.. right after the 28th digit (half-even both ways)
+        k = rng.choice([1, 1, 2, 3, 7])
+        c = _digits(rng, 28)
+        half = "5" + "0" * (k - 1)
+        e = rng.randint(-40, 40)
+        neg = rng.random() < 0.5
+        how = rng.randrange(6)
+        if how == 0:  # 29+-digit operand times one
+            return "mul", _sci(rng, c + half, e, neg), rng.choice(["1", "-1", "1.0", "1E+3", "10"]), cls
+        if how == 1:  # product of two factors: (c*10^k + half) = m * f with a small exact factor f
+            f = rng.choice([2, 4, 5, 8, 16, 25, 125])
+            n = int(c + half) * f
+            return "div", _sci(rng, str(n), e, neg), rng.choice([str(f), "-" + str(f), str(f) + ".0"]), cls
+        if how == 2:  # sum: c * 10^k  +  half
+            sgn = "-" if neg else ""
+            return "add", sgn + c + "0" * k + "E" + str(e), sgn + half + "E" + str(e), cls
+        if how == 3:  # difference: c * 10^k  -  (-half)
+            sgn = "-" if neg else ""
+            osg = "" if neg else "-"
+            return "sub", sgn + c + "0" * k + "E" + str(e), osg + half + "E" + str(e), cls
+        if how == 4:  # product whose exact value is a tie: (c*10^k + half) = x * y with y | it
+            n = int(c + half)
+            for y in (5, 3, 7, 11, 13, 15, 25, 35, 45):
+                if n % y == 0:
+                    return "mul", _sci(rng, str(n // y), e, neg), str(y), cls
+            return "mul", _sci(rng, str(n), e, neg), "1", cls
+        return "div", _sci(rng, c + half, e, neg), "1", cls
+    if cls == "carry":  # 999...9.5 -> 1000...0 : the rounded coefficient reaches 10^28
+        tail = rng.choice(["5", "50", "51", "6", "9", "99", "999", "500000001", "4999", "49"])
+        n = "9" * 28 + tail
+        e = rng.randint(-40, 40)
+        neg = rng.random() < 0.5
+        how = rng.randrange(4)
+        if how == 0:
+            return "mul", _sci(rng, n, e, neg), rng.choice(["1", "-1", "1.00"]), cls
+        if how == 1:
+            return "div", _sci(rng, n, e, neg), rng.choice(["1", "-1", "1E-5"]), cls
+        if how == 2:
+            sgn = "-" if neg else ""
+            return "add", sgn + "9" * 28 + "0" * len(tail) + "E" + str(e), sgn + tail + "E" + str(e), cls
+        return "mul", _sci(rng, str(int(n) // 3 if int(n) % 3 == 0 else int(n)), e, neg), ("3" if int(n) % 3 == 0 else "1"), cls
+    if cls == "expgap":  # add/sub with very different exponents (around the 28/29/30-digit window and far beyond)
+        gap = rng.choice([0, 1, 5, 20, 26, 27, 28, 29, 30, 31, 32, 40, 57, 100, 400, 3000])
+        ca, cb = _digits(rng, rng.choice([1, 3, 10, 27, 28, 29, 35])), _digits(rng, rng.choice([1, 2, 10, 28, 30]))
+        e = rng.randint(-30, 30)
+        a = _sci(rng, ca, e + gap)
+        b = _sci(rng, cb, e)
+        if rng.random() < 0.5:
+            a, b = b, a
+        return rng.choice(["add", "sub"]), a, b, cls
+    if cls == "cross-down":  # 10^k minus something tiny: the result drops below a power of ten (99999...)
+        k = rng.randint(0, 40)
+        gap = rng.choice([1, 5, 27, 28, 29, 30, 31, 60, 500])
+        tiny = _digits(rng, rng.choice([1, 1, 2, 5, 29]))
+        big = "1" + "0" * rng.choice([0, 0, 3, 27, 28])
+        a = big + "E" + str(k)
+        b = tiny + "E" + str(k - gap)
+        if rng.random() < 0.5:
+            return "sub", a, b, cls
+        return "add", ("-" + a if rng.random() < 0.5 else a), ("-" + b), cls
+    if cls == "zero":  # zero operands with assorted signs / exponents (padTo and the sign rules of 0 + 0)
+        z = rng.choice(["0", "-0", "0.000", "-0E-40", "0E+50", "0E-3000", "00.0e5"])
+        o = rng.choice([z, _sci(rng, _digits(rng, rng.choice([1, 5, 28, 29, 33]))), "0E-7", "-0E+9"])
+        if rng.random() < 0.5:
+            z, o = o, z
+        return rng.choice(["add", "sub", "mul", "div"]), z, o, cls
+    if cls == "huge":  # coefficients far beyond the old 2000-digit fuel of `ndigits`
+        a = _sci(rng, _digits(rng, rng.choice([1999, 2000, 2001, 2002, 2300, 3100])))
+        b = _sci(rng, _digits(rng, rng.choice([1, 7, 28, 29, 2001, 2500])))
+        if rng.random() < 0.5:
+            a, b = b, a
+        return rng.choice(["add", "sub", "mul", "div"]), a, b, cls
+    if cls == "div-sticky":  # inexact quotient whose truncated 29/30-digit expansion ends in 0 or 5
+        d = int(_digits(rng, rng.choice([2, 3, 9, 17, 28, 29])))
+        q = int(_digits(rng, 28) + rng.choice(["0", "5", "00", "50", "05", "95"]))
+        rem = rng.randrange(1, d) if d > 1 else 0
+        n = q * d + rem
+        return "div", _sci(rng, str(n)), _sci(rng, str(d)), cls
+    if cls == "div-exact":  # exactly representable quotients (trailing-zero stripping towards the ideal exponent)
+        d = int(_digits(rng, rng.choice([1, 2, 5, 14, 28])))
+        q = int(_digits(rng, rng.choice([1, 3, 14, 27, 28]))) * 10 ** rng.choice([0, 0, 1, 2, 5])
+        return "div", _sci(rng, str(q * d)), _sci(rng, str(d)), cls
+    raise ValueError(cls)
+
+
+def dec_case_profile(line: str, got: str):
+    """Distribution keys of one `D` case, computed from CPython's answer and exact fractions only."""
+    p = line.split(" ")
+    op = p[1]
+    keys = ["dec-op:" + op]
+    try:
+        x, y = Decimal(bytes.fromhex(p[2]).decode()), Decimal(bytes.fromhex(p[3]).decode())
+    except Exception:  # noqa
+        return keys + ["dec:unparsable-operand"]
+    tx, ty = x.as_tuple(), y.as_tuple()
+    nx, ny = len(tx.digits), len(ty.digits)
+    if max(nx, ny) >= 28:
+        keys.append("dec:operand-coefficient>=28-digits")
+    if max(nx, ny) > 2000:
+        keys.append("dec:operand-coefficient>2000-digits")
+    if tx.sign or ty.sign:
+        keys.append("dec:negative-operand")
+    if not x or not y:
+        keys.append("dec:zero-operand")
+    if op in ("add", "sub") and x and y:
+        gap = abs(x.adjusted() - y.adjusted())
+        keys.append("dec:add-sub-exponent-gap:" + ("0-26" if gap < 27 else "27-31" if gap <= 31 else ">31"))
+    if not got.startswith("ok"):
+        return keys + ["dec:signal"]
+    fx, fy = Fraction(x), Fraction(y)
+    exact = {"add": lambda: fx + fy, "sub": lambda: fx - fy, "mul": lambda: fx * fy, "div": lambda: fx / fy}[op]()
+    g = got.split(" ")
+    rc, re_ = int(g[2]), int(g[3])
+    res = Fraction(rc) * Fraction(10) ** re_ * (-1 if g[1] == "1" else 1)
+    if exact == 0:
+        return keys + ["dec:zero-result"]
+    if res == exact:
+        keys.append("dec:result-exact")
+        return keys
+    keys.append("dec:result-rounded")
+    # position of the 28-digit grid around |exact|: ulp = 10^E with 10^27 <= |exact|/ulp < 10^28
+    ax = abs(exact)
+    E = int((ax.numerator.bit_length() - ax.denominator.bit_length()) * 0.30103) - 28  # estimate, corrected below
+    while ax >= Fraction(10) ** (E + 28):
+        E += 1
+    while ax < Fraction(10) ** (E + 27):
+        E -= 1
+    t = ax / Fraction(10) ** E
+    fl = t.numerator // t.denominator
+    frac = t - fl
+    if frac == Fraction(1, 2):
+        keys.append("dec:tie-at-29th-digit:" + ("kept-even" if fl % 2 == 0 else "rounded-up-to-even"))
+    if fl == 10 ** 28 - 1 and abs(res) == Fraction(10) ** (E + 28):
+        keys.append("dec:rounding-carried-to-next-power-of-ten")
+    if abs(res - exact) * 10 ** 28 > 5 * ax:
+        keys.append("dec:CPYTHON-RESULT-OUTSIDE-HALF-ULP")  # would contradict Dec.*_rel_err; never expected
+    return keys
+
+
 class Env:
     def __init__(self):
         import qcelemental as qcel
@@ -269,19 +487,248 @@ class Env:
         }
         self.specs = {"2014": Spec(2014), "2018": Spec(2018)}
         self.specs["default"] = self.specs["2014"]  # the documented default set is CODATA2014
+        self.cls = PhysicalConstantsContext
+        # construction-sequence stream: state of the sequences executed so far in this process
+        self.seq_log = []  # set names ("2014"/"2018") of every context constructed by sequences, in order
+        self.seqs = {}  # sequence id -> {"done": steps executed, "inst": [contexts], "sets": [...], "snaps": [...]}
+        self.base_snaps = {k: snapshot(c) for k, c in self.ctxs.items()}
+
+    # -- which context object / which specification a case is about
+    def ctx_of(self, case):
+        if "seq" in case:
+            st = ensure_sequence(self, case["seq"], case["upto"])
+            if "base" in case:  # the singleton / one of the harness' own contexts, looked at after the sequence's steps
+                return self.ctxs[case["base"]]
+            return st["inst"][case["target"]]
+        return self.ctxs[case["ctx"]]
+
+    def spec_of(self, case) -> "Spec":
+        return self.specs[case.get("spec", case["ctx"])]
 
 
-def line_of(case) -> str:
+# ---- construction sequences (state leaking between PhysicalConstantsContext instances) -------
+# The property quantifies over "both contexts and the default singleton"; it says nothing about the
+# order in which contexts come into being, so it must hold for EVERY instance however many other
+# instances were built, used or discarded before or after it in the same process.
+
+SET_OF = {"2014": "2014", "2018": "2018", "default-arg": "2014"}  # constructor spelling -> CODATA set
+
+
+def construct(env, how: str):
+    if how == "default-arg":
+        return env.cls()  # PhysicalConstantsContext() -- documented default CODATA2014
+    return env.cls("CODATA" + how)
+
+
+def snapshot(c):
+    """Everything the property looks at on one instance, by value: pc in order + the float attributes."""
+    if c is None:
+        return None
+    pcs = []
+    for k, q in c.pc.items():
+        d = q.data
+        pcs.append((k, q.label, q.units, dec_triple(d) if isinstance(d, Decimal) else repr(d), q.comment, q.doi))
+    attrs = tuple((a, fbits(v)) for a, v in vars(c).items() if isinstance(v, float))
+    # what attribute access resolves to (instance OR class level) for every label the context holds
+    seen = []
+    for q in c.pc.values():
+        v = getattr(c, mangle(q.label), None)
+        seen.append(fbits(v) if isinstance(v, float) else repr(type(v)))
+    return (tuple(pcs), attrs, tuple(seen))
+
+
+def do_use(env, st, step):
+    """an interleaved use of an earlier instance (or the singleton / the harness' own contexts); never asserts"""
+    on = step["on"]
+    c = env.ctxs[on] if isinstance(on, str) else st["inst"][on]
+    what, arg = step["what"], step.get("arg")
+    if c is None:
+        return "skipped"
+    try:
+        if what == "get":
+            c.get(arg)
+        elif what == "tuple":
+            c.get(arg, return_tuple=True)
+        elif what == "attr":
+            getattr(c, arg)
+        elif what == "item":
+            c.pc[arg]
+        elif what == "conv":
+            c.conversion_factor(*arg)
+        elif what == "ureg":
+            c.ureg  # noqa: B018  (lazily builds the pint registry of this context)
+        elif what == "repr":
+            c.string_representation()
+            str(c)
+        elif what == "quantity":
+            c.Quantity(arg)
+        return "ok"
+    except Exception as e:  # noqa
+        return "raised:" + type(e).__name__
+
+
+def ensure_sequence(env, seq, upto: int):
+    """Execute the sequence's steps 0..upto (once).  On a fresh process (replay) first re-create the
+    contexts that earlier sequences had constructed (`prior`), so that a replay sees the same history."""
+    sid = seq["id"]
+    st = env.seqs.get(sid)
+    if st is None:
+        prior = seq.get("prior", [])
+        while len(env.seq_log) < len(prior):
+            how = prior[len(env.seq_log)]
+            construct(env, how)
+            env.seq_log.append(how)
+        st = env.seqs[sid] = {"done": 0, "inst": [], "sets": [], "snaps": [], "uses": []}
+    while st["done"] <= upto:
+        step = seq["steps"][st["done"]]
+        if step["do"] == "new":
+            try:
+                c = construct(env, step["how"])
+            except Exception as e:  # noqa  -- a context that cannot be built: nothing is retrievable from it
+                c = None
+                st.setdefault("errors", {})[len(st["inst"])] = type(e).__name__
+            env.seq_log.append(step["how"])
+            st["inst"].append(c)
+            st["sets"].append(SET_OF[step["how"]])
+            st["snaps"].append(snapshot(c))
+        else:
+            st["uses"].append(do_use(env, st, step))
+        st["done"] += 1
+    return st
+
+
+def describe_history(seq, upto: int) -> str:
+    steps = []
+    for i, stp in enumerate(seq["steps"][: upto + 1]):
+        if stp["do"] == "new":
+            steps.append(f"#{i} construct PhysicalConstantsContext({'' if stp['how'] == 'default-arg' else repr('CODATA' + stp['how'])})")
+        else:
+            steps.append(f"#{i} {stp['what']}({stp.get('arg')!r}) on {stp['on'] if isinstance(stp['on'], str) else 'instance ' + str(stp['on'])}")
+    return (
+        "process history: import qcelemental (singleton = CODATA2014); harness contexts CODATA2014 then CODATA2018; "
+        + f"{len(seq.get('prior', []))} contexts built by earlier sequences ({' '.join(seq.get('prior', [])) or 'none'}); then " + "; ".join(steps)
+    )
+
+
+def sweep_cases(env, seq, upto: int, target: int, cset: str, why: str):
+    """The FULL oracle sweep of one instance: every name the property lists for its set x
+    {get(return_tuple), get, attribute, pc[lower]} (exact spelling)."""
+    out = []
+    for name, tag in env.specs[cset].names():
+        for mode in MODES:
+            if mode == "attr" and tag not in ("nist", "calorie", "alias"):
+                continue
+            sent = mangle(name) if mode == "attr" else (name.lower() if mode == "item" else name)
+            out.append({"ctx": f"seq{seq['id']}.{target}", "spec": cset, "mode": mode, "name": name, "tag": tag,
+                        "roles": ["exact", "lower"] if mode == "item" else ["exact"], "sent": sent,
+                        "seq": seq, "upto": upto, "target": target, "why": why})
+    return out
+
+
+def make_sequences(rng, ctx: Ctx):
+    """[steps]: fixed regression orders first (2014 after 2018 is the seeded mutable-default leak), then random ones"""
+    N = lambda how: {"do": "new", "how": how}  # noqa: E731
+    fixed = [
+        [N("2018"), N("2014")],
+        [N("2014"), N("2018")],
+        [N("2014"), N("2014")],
+        [N("2018"), N("2018")],
+        [N("2018"), N("default-arg"), N("2018"), N("2014")],
+    ]
+    names14 = ["Hartree energy", "molar Planck constant times c", "hartree2kcalmol", "Bohr radius", "electric constant", "calorie-joule relationship"]
+    convs = [("bohr", "angstrom"), ("hartree", "kcal/mol"), ("hartree", "wavenumber")]
+
+    def rand_use(n_inst):
+        on = rng.choice(["default", "2014", "2018"] + list(range(n_inst)) * 2)
+        what = rng.choice(["get", "get", "tuple", "attr", "item", "repr", "quantity", "conv", "ureg"])
+        nm = rng.choice(names14)
+        arg = {"get": mixed(rng, nm), "tuple": nm.upper(), "attr": mangle(nm), "item": nm.lower(), "quantity": "1.5 bohr",
+               "conv": list(rng.choice(convs))}.get(what)
+        return {"do": "use", "on": on, "what": what, "arg": arg}
+
+    seqs = list(fixed)
+    for _ in range(ctx.scale(5, 40)):
+        steps, n_inst = [], 0
+        for _ in range(rng.randint(2, 5)):
+            steps.append(N(rng.choice(["2014", "2018", "2014", "2018", "default-arg"])))
+            n_inst += 1
+            for _ in range(rng.randint(0, 2)):
+                steps.append(rand_use(n_inst))
+        seqs.append(steps)
+    return seqs
+
+
+def sequence_cases(env, rng, ctx: Ctx):
+    """Cases of the construction-sequence stream, in execution order.  After every construction: the
+    key order / attribute set of the new instance (model diff), its full oracle sweep, and a `watch`
+    case that re-examines every instance built earlier (incl. the singleton and the harness' own two
+    contexts) and re-runs the full oracle on each one whose observable state changed."""
+    cases, prior = [], []
+    for sid, steps in enumerate(make_sequences(rng, ctx)):
+        seq = {"id": sid, "steps": steps, "prior": list(prior)}
+        target = -1
+        for i, stp in enumerate(steps):
+            if stp["do"] != "new":
+                cases.append({"seqop": "use", "seq": seq, "upto": i})
+                continue
+            target += 1
+            cset = SET_OF[stp["how"]]
+            cases.append({"seqop": "keys", "seq": seq, "upto": i, "target": target, "spec": cset})
+            cases.append({"seqop": "attrs", "seq": seq, "upto": i, "target": target, "spec": cset})
+            cases += sweep_cases(env, seq, i, target, cset, "fresh instance")
+            cases.append({"seqop": "watch", "seq": seq, "upto": i, "target": target})
+            prior.append(stp["how"])
+        # uses after the last construction may also disturb instances
+        cases.append({"seqop": "watch", "seq": seq, "upto": len(steps) - 1, "target": target})
+    return cases
+
+
+def watch_changed(env, case):
+    """-> [(label, sweep cases)] for every earlier instance whose observable state differs from when it was built"""
+    seq, upto = case["seq"], case["upto"]
+    st = ensure_sequence(env, seq, upto)
+    changed = []
+    for j, (c, snap) in enumerate(zip(st["inst"], st["snaps"])):
+        now = snapshot(c)
+        if now != snap:
+            st["snaps"][j] = now  # report each change once
+            changed.append((f"seq{seq['id']}.{j}", sweep_cases(env, seq, upto, j, st["sets"][j], "instance re-examined after later steps")))
+    for k, c in env.ctxs.items():
+        now = snapshot(c)
+        if now != env.base_snaps[k]:
+            env.base_snaps[k] = now
+            sw = sweep_cases(env, seq, upto, 0, k, "re-examined after sequence steps")
+            changed.append((k, [dict(cs, ctx=k, base=k) for cs in sw]))
+    return changed
+
+
+def line_of(case):
+    """the model's input line for this case, or None when the case has no model counterpart"""
     if "line" in case:
         return case["line"]
-    return f"G {case['ctx']} {case['mode']} {hexs(case['sent'])}"
+    if "seqop" in case:
+        return {"keys": "K ", "attrs": "A "}[case["seqop"]] + case["spec"] if case["seqop"] in ("keys", "attrs") else None
+    return f"G {case.get('spec', case['ctx'])} {case['mode']} {hexs(case['sent'])}"
 
 
 def impl_of(env: Env, case) -> str:
     """Run the real code on one case and render it in the driver's output format."""
     if "line" in case:
         return impl_line(env, case["line"])
-    c = env.ctxs[case["ctx"]]
+    if "seqop" in case:
+        st = ensure_sequence(env, case["seq"], case["upto"])
+        if case["seqop"] in ("keys", "attrs") and st["inst"][case["target"]] is None:
+            return "err construction:" + st["errors"][case["target"]]
+        if case["seqop"] == "keys":
+            return "ok " + ",".join(hexs(k) for k in st["inst"][case["target"]].pc)
+        if case["seqop"] == "attrs":
+            return "ok " + ",".join(hexs(a) for a, v in vars(st["inst"][case["target"]]).items() if isinstance(v, float))
+        if case["seqop"] == "use":
+            return "use " + st["uses"][-1] if st["uses"] else "use none"
+        return "watch"
+    c = env.ctx_of(case)
+    if c is None:
+        return "err other:construction-raised-" + env.seqs[case["seq"]["id"]]["errors"].get(case.get("target"), "?")
     mode, sent = case["mode"], case["sent"]
     try:
         if mode == "get":
@@ -332,18 +779,22 @@ def impl_line(env: Env, line: str) -> str:
 
 def oracle(env: Env, case, got: str):
     """The property stated directly on the implementation's behaviour for this one case (no model)."""
-    if "line" in case:
+    if "line" in case or "seqop" in case:
         return []
     tag, roles, mode, name = case["tag"], case["roles"], case["mode"], case["name"]
     variant = "/".join(roles)
     if tag in ("extra", "outside"):
         return []
-    spec: Spec = env.specs[case["ctx"]]
-    c = env.ctxs[case["ctx"]]
+    spec: Spec = env.spec_of(case)
+    c = env.ctx_of(case)
     finds = []
+    where = ""
+    if "seq" in case:
+        who = f"context {case['base']!r}" if "base" in case else f"instance #{case['target']} (CODATA{case['spec']}) of construction sequence {case['seq']['id']}"
+        where = f" [{who}, {case.get('why', '')}; " + describe_history(case["seq"], case["upto"]) + "]"
 
     def bad(kind, observed, expected, detail):
-        finds.append(Finding(kind, case, observed=observed, expected=expected, detail=detail))
+        finds.append(Finding(kind, case, observed=observed, expected=expected, detail=detail + where))
 
     # which accesses the property requires to succeed
     must = mode in ("get", "tuple") or (mode == "item" and "lower" in roles) or (mode == "attr" and "exact" in roles and tag in ("nist", "calorie", "alias"))
@@ -445,11 +896,16 @@ def build_cases(env: Env, rng, ctx: Ctx):
         elif r < 0.14:
             b = a[1:] if a.startswith("-") else "-" + a
         cases.append({"line": f"D {rng.choice(['add', 'sub', 'mul', 'div'])} {hexs(a)} {hexs(b)}"})
+    for _ in range(ctx.scale(3500, 50000)):
+        op, a, b, _cls = structured_dec_case(rng)
+        cases.append({"line": f"D {op} {hexs(a)} {hexs(b)}"})
     for _ in range(ctx.scale(3000, 40000)):
         a = rdec()
         if rng.random() < 0.35:
             a = a.split("e")[0].split("E")[0] + "e" + str(rng.randint(-345, 310))
         cases.append({"line": f"F {hexs(a)}"})
+    # construction-sequence stream (runs last: it creates many further contexts in this process)
+    cases += sequence_cases(env, rng, ctx)
     return cases
 
 
@@ -463,23 +919,51 @@ def run(ctx: Ctx) -> Outcome:
         out.notes.append(f"WARNING: ambient decimal context is {dc}")
     cases = build_cases(env, ctx.rng, ctx)
     lines = [line_of(c) for c in cases]
-    model = ctx.run_model(DRIVER, lines) if ctx.model_available else [None] * len(lines)
+    sent = [ln for ln in lines if ln is not None]
+    answers = iter(ctx.run_model(DRIVER, sent) if ctx.model_available else [None] * len(sent))
+    model = [next(answers) if ln is not None else None for ln in lines]
+    lines = [ln if ln is not None else "(no model line)" for ln in lines]
     for i, (case, ml) in enumerate(zip(cases, model)):
         got = impl_of(env, case)
         out.evaluations += 1
-        if "line" in case:
+        if "seqop" in case:
+            out.count("stream:construction-sequence:" + case["seqop"])
+            if case["seqop"] == "keys":
+                hist = [SET_OF[s_["how"]] for s_ in case["seq"]["steps"][: case["upto"]] if s_["do"] == "new"]
+                out.count("seq:built-" + case["spec"] + "-after-" + ("nothing" if not hist else "+".join(sorted(set(hist)))))
+                out.nontrivial(("seq", tuple(case["seq"]["prior"]), tuple(s_.get("how", s_.get("what")) for s_ in case["seq"]["steps"][: case["upto"] + 1])))
+            elif case["seqop"] == "use":
+                out.count("seq:use-" + got.split(" ")[1].split(":")[0])
+            elif case["seqop"] == "watch":
+                changed = watch_changed(env, case)
+                out.count("seq:watch-earlier-instances-" + ("changed" if changed else "unchanged"))
+                for label, sweep in changed:
+                    nf = 0
+                    for sc in sweep:
+                        fs = oracle(env, sc, impl_of(env, sc))
+                        nf += len(fs)
+                        out.violations += fs
+                    out.count("seq:changed-instance-" + ("violates" if nf else "still-conforms"))
+                    out.notes.append(f"observable state of {label} changed during construction sequence {case['seq']['id']} (step {case['upto']}); full oracle re-run on it: {nf} findings")
+        elif "seq" in case:
+            out.count("stream:construction-sequence:oracle-sweep")
+            out.count("seq-sweep-mode:" + case["mode"])
+        elif "line" in case:
             kindc = case["line"].split(" ")[0]
             out.count("stream:" + {"K": "key-order", "A": "attribute-set", "D": "decimal-op", "F": "float-conversion"}[kindc])
             if kindc in "DF":
                 out.count("outcome:" + ("arith-ok" if got.startswith("ok") else "arith-error"))
                 out.nontrivial(case["line"])
+            if kindc == "D":
+                for k in dec_case_profile(case["line"], got):
+                    out.count(k)
         else:
             out.count("tag:" + case["tag"])
             out.count("mode:" + case["mode"])
             out.count("outcome:" + (got.split(" ")[0] + (":" + got.split(" ")[1] if got.startswith("err") else "")))
             if case["tag"] != "nist" or case["sent"] != case["name"].lower() or case["mode"] == "attr":
                 out.nontrivial((case["ctx"], case["mode"], case["sent"]))
-        if i % 2503 == 7:
+        if i % 2503 == 7 and "seq" not in case:
             out.sample({"case": {k: v for k, v in case.items()}, "line": lines[i][:160], "impl": got[:200], "model": (ml or "")[:200]})
         for f in oracle(env, case, got):
             out.violations.append(f)
@@ -504,7 +988,7 @@ def replay(ctx: Ctx, case) -> Outcome:
     env = Env()
     got = impl_of(env, case)
     line = line_of(case)
-    ml = ctx.run_model(DRIVER, [line])[0] if ctx.model_available else None
+    ml = ctx.run_model(DRIVER, [line])[0] if ctx.model_available and line is not None else None
     out.evaluations = 1
     out.sample({"line": line, "impl": got[:300], "model": (ml or "")[:300]})
     out.violations += oracle(env, case, got)
